@@ -88,12 +88,20 @@ func docGroup(r *rand.Rand, indent string, settings []string, decoy string) (str
 	var sb strings.Builder
 	var exp []string
 	// a doc comment group must not contain blank (non-comment) lines
+	prev, prevLine := "", docLine{}
 	for _, s := range settings {
+		if s == prev {
+			// a setting repeated on the directly following line, written in exactly the same way: both lines are settings
+			sb.WriteString(indentText(indent, prevLine.text))
+			exp = append(exp, strings.TrimSpace(prevLine.setting))
+			continue
+		}
 		if r.Intn(3) == 0 {
 			n := noiseLine(r, decoy)
 			sb.WriteString(indentText(indent, n.text))
 		}
 		dl := styleLine(r, s)
+		prev, prevLine = s, dl
 		sb.WriteString(indentText(indent, dl.text))
 		exp = append(exp, strings.TrimSpace(dl.setting))
 	}
@@ -155,8 +163,8 @@ func c19File(r *rand.Rand, pkg string, idx int) (string, []*c19Decl) {
 			if r.Intn(2) == 0 {
 				// the value is the text after the FIRST space: further leading blanks belong to it
 				// observed through output:raw lines that form a raw string literal (gofmt leaves its content alone)
-				settings = append(settings, "output:raw var Raw"+id+" = `", "output:raw     indented four for "+id, "output:raw `")
-				d.comment = "\n    indented four for " + id + "\n"
+				settings = append(settings, "output:raw var Raw"+id+" = `", "output:raw     indented four for "+id, "output:raw twice "+id, "output:raw twice "+id, "output:raw `")
+				d.comment = "\n    indented four for " + id + "\ntwice " + id + "\ntwice " + id + "\n"
 			}
 			doc, exp := docGroup(r, "", settings, "name "+decoyName+"b")
 			d.expConv = exp
@@ -426,7 +434,7 @@ func C19(e *core.Env) int {
 				bad("effect_decoy", "a decoy name appears in the output", head(body, 800))
 			}
 			if d.comment != "" && !strings.Contains(body, d.comment) {
-				bad("effect_value", "the value of a setting is not the text after the first space (leading blanks of the value were lost)", "want line: "+d.comment+"\n"+head(body, 800))
+				bad("effect_value", "the values of the output:raw settings do not appear as written (leading blanks of a value lost, or one of two identical adjacent setting lines dropped)", "want line: "+d.comment+"\n"+head(body, 800))
 			}
 			if d.kind == "iface" && !strings.Contains(body, "type "+d.implName+" struct{}") {
 				bad("effect_name", "the attached name setting did not take effect", head(body, 800))
